@@ -44,7 +44,8 @@ pub fn observe_mod(c: &ModCase) -> String {
         Err(e) => return format!("i.build=E{}", err_code(&e.kind)),
     };
     let comms: Vec<HashSet<u32>> = c.comms.iter().map(|v| v.iter().copied().collect()).collect();
-    let res = c.res.0 as f64 / c.res.1 as f64;
+    // denominator 0 encodes an extreme resolution: numerator x 1e-320 (a subnormal f64, still a positive resolution)
+    let res = if c.res.1 == 0 { c.res.0 as f64 * 1e-320 } else { c.res.0 as f64 / c.res.1 as f64 };
     let isp = partitions::is_partition(&g, &comms);
     let m = partitions::modularity(&g, &comms, c.weighted, Some(res));
     // resolution None must mean 1.0
@@ -101,7 +102,7 @@ pub fn gen_mod(rng: &mut Rng, _profile: &str, size: usize) -> ModCase {
             _ => { comms.push(vec![]); } // an empty community
         }
     }
-    let res = *rng.pick(&[(1i64, 1u32), (1, 1), (1, 2), (3, 2), (2, 1), (1, 4), (5, 4)]);
+    let res = if rng.chance(4) { (rng.range(1, 9), 0u32) } else { *rng.pick(&[(1i64, 1u32), (1, 1), (1, 2), (3, 2), (2, 1), (1, 4), (5, 4)]) };
     ModCase { g, weighted, res, comms, wdiv: *rng.pick(&[1u64, 1, 2, 4, 1 << 60]) }
 }
 
